@@ -103,12 +103,18 @@ func (d *DurationStats) Record(nanoseconds int64) {
 }
 
 func (d *DurationStats) CollectLifetime() (IterationDurationsSnapshot, IterationDurationsSnapshot) {
-	running := d.running.Snapshot()
+	// Take the period accumulators with atomic swaps, so that a concurrent Record lands in exactly
+	// one period. Reading them, merging and only then resetting would erase every Record that
+	// happens between the read and the reset.
+	var period IterationDurations
+	period.sum.Store(d.running.sum.Swap(0))
+	period.count.Store(d.running.count.Swap(0))
+	period.max.Store(d.running.max.Swap(0))
+	period.min.Store(d.running.min.Swap(0))
 	verifhook.Yield("ps.collect.read", d, 0)
-	d.lifetime.Update(&d.running)
+	d.lifetime.Update(&period)
 	verifhook.Yield("ps.collect.merged", d, 0)
-	d.running.Reset()
 	verifhook.Yield("ps.collect.reset", d, 0)
 
-	return running, d.lifetime.Snapshot()
+	return period.Snapshot(), d.lifetime.Snapshot()
 }
